@@ -241,6 +241,17 @@ def _check_wide(c, f, dtype, sign, man, exp):
                 ex2 = utils.number2expansion(dtype, m)
                 if [flt.scalar_bits(a) for a in ex2] != [flt.scalar_bits(a) for a in ex]:
                     out.append(("wide/expansion/number2expansion", "dispatcher differs"))
+                # length / functional options: a prefix of the full expansion; fixed length padded with zeros
+                bits = [flt.scalar_bits(a) for a in ex]
+                for L in sorted({1, max(1, len(ex) - 1), len(ex), len(ex) + 2}):
+                    with np.errstate(all="ignore"):
+                        e1 = utils.mpf2expansion(dtype, m, length=L)
+                        e2 = utils.mpf2expansion(dtype, m, length=L, functional=True)
+                    if [flt.scalar_bits(a) for a in e1] != bits[:L]:
+                        out.append(("wide/expansion/length-not-prefix", "mpf2expansion(%s, man=%d exp=%d, length=%d)=%r is not the first %d words of %r" % (f.name, man, exp, L, e1, L, ex)))
+                    pad = bits[:L] + [0] * max(0, L - len(bits))
+                    if len(e2) != max(L, 0) or any(type(a) is not dtype for a in e2) or [flt.scalar_bits(a) & ~f.sign_mask if flt.scalar_bits(a) & ~f.sign_mask == 0 else flt.scalar_bits(a) for a in e2] != [b & ~f.sign_mask if b & ~f.sign_mask == 0 else b for b in pad]:
+                        out.append(("wide/expansion/functional-length", "mpf2expansion(%s, man=%d exp=%d, length=%d, functional=True)=%r, expected %d words: the prefix of %r padded with zeros" % (f.name, man, exp, L, e2, L, ex)))
         with np.errstate(all="ignore"):
             mw = utils.mpf2multiword(dtype, m)
         bc = man.bit_length()
@@ -257,6 +268,30 @@ def _check_wide(c, f, dtype, sign, man, exp):
                 back = utils.multiword2mpf(c, mw)
                 if mpf_value(back._mpf_) != exact:
                     out.append(("wide/multiword/roundtrip", "multiword2mpf(mpf2multiword(x)) != x"))
+        # options: word precision p' <= p and a bound on the number of words
+        def sigbits(w):
+            q = abs(flt.float2frac(w))
+            return 0 if q == 0 else (q.numerator.bit_length() - (q.numerator & -q.numerator).bit_length() + 1)
+
+        for pp in sorted({f.p, f.p - 1, max(2, f.p // 2)}):
+            for ml in (None, 1, 2, 3):
+                try:
+                    with np.errstate(all="ignore"):
+                        w = utils.mpf2multiword(dtype, m, p=pp, max_length=ml)
+                except Exception as e:
+                    out.append(("wide/multiword/options-raise/%s" % type(e).__name__, "mpf2multiword(%s, man=%d exp=%d, p=%d, max_length=%s) raised %r" % (f.name, man, exp, pp, ml, e)))
+                    continue
+                what = "mpf2multiword(%s, man=%d exp=%d, p=%d, max_length=%s)=%r" % (f.name, man, exp, pp, ml, w)
+                if any(type(a) is not dtype or not np.isfinite(a) for a in w):
+                    out.append(("wide/multiword/options-nonfinite", what))
+                    continue
+                if ml is not None and len(w) > ml:
+                    out.append(("wide/multiword/options-too-long", what + " has more than max_length words"))
+                body = w if ml is None else w[: max(0, ml - 1)]  # the last word may accumulate the tail when max_length is given
+                if any(sigbits(a) > pp for a in body):
+                    out.append(("wide/multiword/options-word-precision", what + ": a word has more than p significant bits"))
+                if ml is None and w and bc <= pp * len(w) and fsum(w) != exact:
+                    out.append(("wide/multiword/options-value", what + " is not exact although bc <= p*len"))
     return out
 
 
